@@ -149,8 +149,22 @@ def random_script(rng, i, nops):
                 priv = rng.random() < 0.6
                 ops.append(["vis", r, priv, sorted(rng.sample(range(1, nnodes + 1), rng.randint(0, 2)))])
                 priv_now[r - 1] = priv
-                if rng.random() < 0.5:
+                if rng.random() < 0.4:
                     ops.append(["restart"])
+                elif priv and conn:
+                    # probe the relay paths for the repository that has just become private while the node runs:
+                    # subscribers, then a third party's (newer) refs announcement about it
+                    for q in sorted(conn)[:2]:
+                        ops.append(["sub", q, "all", ZEROT, MAXT])
+                    p = rng.choice(sorted(conn))
+                    node = rng.randint(1, nnodes)
+                    for kind, repo in (("node", 0), ("refs", r)):
+                        key = (node, kind, repo)
+                        ts = max(last_ts.get(key, clock), clock) + rng.randint(1, 500)
+                        op = ["ann", p, node, kind, repo, ts, True, 0 if kind == "node" else rng.choice([1, 2])]
+                        ops.append(op)
+                        sent.append(op)
+                        last_ts[key] = ts
         elif x < 0.95:
             ops.append(["restart"])
         elif x < 0.97:
@@ -177,6 +191,10 @@ def scripted():
              ["ann", 2, 3, "inv", 0, 300, True, 1], ["tick", 7000]]),
         dict(base, run="s-replay-private", ops=[["connect", 1], ["ann", 1, 3, "node", 0, 200, True, 0], ["ann", 1, 3, "refs", 2, 400, True, 1],
              ["ann", 1, 3, "refs", 3, 400, True, 1], ["refs", 2], ["connect", 2], ["sub", 2, "all", ZEROT, MAXT]]),
+        # a repository made private while the node runs: a third party's refs announcement about it must not be
+        # relayed to a subscriber outside the allow list (seeded change C11c: relay() trusting the cached inventory)
+        dict(base, run="s-private-while-running-relay", ops=[["connect", 1], ["connect", 2], ["sub", 2, "all", ZEROT, MAXT], ["ann", 1, 3, "node", 0, 200, True, 0],
+             ["ann", 1, 3, "refs", 1, 300, True, 1], ["vis", 1, True, [1]], ["ann", 1, 3, "refs", 1, 400, True, 2], ["tick", 7000]]),
         dict(base, run="s-ts-zero", ops=[["connect", 1], ["ann", 1, 3, "node", 0, ZEROT, True, 0], ["ann", 1, 1, "node", 0, 5, True, 0]]),
         dict(base, run="s-inverted-range", ops=[["connect", 1], ["sub", 1, "all", 10, 5], ["ann", 1, 1, "node", 0, 5, True, 0]]),
         dict(base, run="s-clock-backward", ops=[["connect", 1], ["sub", 1, "all", ZEROT, MAXT], ["refs", 1], ["refs", 1], ["settime", -5000], ["refs", 1],
@@ -191,7 +209,7 @@ def run_gossip(ctx, clauses, thorough, model=True):
     stats = {"model_behaviours": 0, "random_runs": 0, "scripted_runs": len(scripts)}
     if model:
         cfg = "MCGossip_t.cfg" if thorough else "MCGossip_q.cfg"
-        res = ctx.tlc("MCGossip", cfg, workers=8, timeout=3000 if thorough else 600, coverage=True, heap="8g",
+        res = ctx.tlc("MCGossip", cfg, workers=1, timeout=3000 if thorough else 600, coverage=True, heap="8g",
                       label="design model, exhaustive: invariants C10_*, C11_*, C29_* with deviations disabled")
         ctx.tlc_ok(res, "MCGossip")
         if res.violated:
@@ -199,7 +217,7 @@ def run_gossip(ctx, clauses, thorough, model=True):
             return [], stats
         ctx.require_coverage(res, ["Connect", "Disconnect", "Receive", "Subscribe", "GossipTick", "AnnounceRefs", "VisChange", "Restart"])
         for name, cfgd, inv in (("stale-deliverer", "MCGossip_dev1.cfg", "C10_NoEcho"), ("replay-unstored", "MCGossip_dev2.cfg", "C11_Refs")):
-            dev = ctx.tlc("MCGossip", cfgd, workers=8, timeout=900, coverage=False, count=False, heap="8g",
+            dev = ctx.tlc("MCGossip", cfgd, workers=1, timeout=900, coverage=False, count=False, heap="8g",
                           label=f"sanity: deviation {name} must violate {inv}")
             if dev.violated != inv:
                 raise vlib.ToolError(f"sanity run: deviation {name} was not rejected by TLC ({dev.violated})")
